@@ -445,7 +445,7 @@ func c19Worker(sh *explore.Shard) {
 				for _, th := range []float64{0, 1} {
 					tab := res.HS.TableString(rg.Groups(), sizes.Threshold(th), style)
 					want := expectedTable(nums, items, cites, groups, th)
-					if tab != want {
+					if normTable(tab) != normTable(want) {
 						mk("table", fmt.Sprintf("style %v threshold %v: citations/footnotes differ from first-citation numbering\n--- actual\n%s--- expected\n%s", style, th, clipText(tab), clipText(want)))
 					}
 				}
@@ -468,7 +468,9 @@ func c19Worker(sh *explore.Shard) {
 								out := cli.Run(cliDir, cli.FakeGitDir, fsn.Env(), 60*time.Second, run.args...)
 								sh.C.Validated++
 								sh.C.Add("cli_fakegit_runs", 1)
-								if out.Exit != 0 {
+								if u := fakeUnmodelled(fsn); u != "" {
+									mk("HARNESS/unmodelled-git-command", "the model git does not implement the read-only command "+u)
+								} else if out.Exit != 0 {
 									mk("cli-error", fmt.Sprintf("the real binary failed (exit %d) with args %v: %s", out.Exit, run.args, tailBytes(out.Stderr, 300)))
 								} else if string(out.Stdout) != run.want {
 									if run.args[1] == "--json" {
@@ -573,6 +575,6 @@ func plainGrouper() sizes.RefGrouper {
 
 func init() {
 	Registry["C19"] = &Check{Level: "exploration", Worker: c19Worker, QuickBudget: 70 * time.Second, ThoroughBudget: 10 * time.Minute,
-		Rule:        "a special-byte alphabet (space, double and single quote, backslash, TAB, LF, CR, 0x01, DEL, invalid UTF-8, multi-byte UTF-8, ':', leading '-', '[1]', printf verbs, braces, U+2028) in four positions (alone, start, middle, end) and long names (255, 256, 4096, 65494, 65495; 70000 in thorough) placed in: directory names, file names (all single placements and a product at reduced alphabet), reference names (only those git check-ref-format accepts; the harness rule is validated against real git on the whole alphabet in every run), ROOT spellings, refgroup symbols and display names; scanned in-process in the three name styles. JSON v1 and v2 must pass an independent strict RFC 8259 validator and have the plain-name key set (per-refgroup members excepted); the table must equal byte-for-byte the text constructed from the scan's own citations (numbered 1..k by first citation, equal texts sharing a number, every footnote cited); descriptions are judged as in C08; for every third tree-entry placement the real binary (model git on PATH) must print byte-for-byte the same JSON v1, JSON v2 and table as the in-process rendering of the same scan. non-trivial = every placement",
+		Rule:        "a special-byte alphabet (space, double and single quote, backslash, TAB, LF, CR, 0x01, DEL, invalid UTF-8, multi-byte UTF-8, ':', leading '-', '[1]', printf verbs, braces, U+2028) in four positions (alone, start, middle, end) and long names (255, 256, 4096, 65494, 65495; 70000 in thorough) placed in: directory names, file names (all single placements and a product at reduced alphabet), reference names (only those git check-ref-format accepts; the harness rule is validated against real git on the whole alphabet in every run), ROOT spellings, refgroup symbols and display names; scanned in-process in the three name styles. JSON v1 and v2 must pass an independent strict RFC 8259 validator and have the plain-name key set (per-refgroup members excepted); the table must equal row by row (layout ignored) the text constructed from the scan's own citations (numbered 1..k by first citation, equal texts sharing a number, every footnote cited); descriptions are judged as in C08; for every third tree-entry placement the real binary (model git on PATH) must print byte-for-byte the same JSON v1, JSON v2 and table as the in-process rendering of the same scan. non-trivial = every placement",
 		Assumptions: []string{"reference names are limited to what git itself can hold", "footnote texts are taken from the scan result (Path.String()) and the table is compared with the constructive expected text"}}
 }
